@@ -17,8 +17,9 @@ RULES = {
     'R3': 'encoder and decoder handle the same conversion characters, and for each (conversion, long/long long) the bytes appended equal the bytes consumed',
     'R4': 'no state leaks from one directive to the next: locals read in an iteration before being written in it are only the cursors',
     'R5': 'the blackbox reserves header + max_line_length and every serialize call is given at most max_line_length (= C11.R3)',
+    'R6': 'encoder and decoder agree on where the arguments start: the decoder looks behind the stored format\'s terminator, so wherever the encoder shortens the stored format (stores a NUL into it) it moves its argument cursor back on the same path',
 }
-FLOORS = {'R1': 12, 'R2': 20, 'R3': 20, 'R4': 2, 'R5': 12}
+FLOORS = {'R1': 12, 'R2': 20, 'R3': 20, 'R4': 2, 'R5': 12, 'R6': 1}
 
 
 def strl_summary(an, ev, st):
@@ -173,6 +174,7 @@ def run(ctx):
     r3(ctx, e, d)
     r4(ctx, e, d)
     r5(ctx)
+    r6(ctx, e)
 
 
 def _switch_block(f):
@@ -392,3 +394,45 @@ def r5(ctx):
     for r in sub.results:
         r['rule'] = 'R5'
         ctx.results.append(r)
+
+
+def r6(ctx, e):
+    sp = e.params[0]['n']
+    # pointers into the stored format: locals assigned from a search in it
+    ptrs = set()
+    for st in e.events('STORE'):
+        if st.rhs is not None and unwrap(st.lhs).get('k') == 'var':
+            for n in walk(st.rhs):
+                if n.get('k') == 'call' and callee_of(n) in ('strchr', 'strrchr', 'strchrnul', 'memchr') and n.get('args') and estr(unwrap(n['args'][0])) == sp:
+                    ptrs.add(unwrap(st.lhs)['n'])
+    from rules.common import const_leaves
+    cuts = [st for st in e.events('STORE') if unwrap(st.lhs).get('k') == 'deref' and 0 in (const_leaves(st.rhs) or []) and
+            root_var(st.lhs) is not None and root_var(st.lhs)['n'] in ptrs]
+    cuts += [st for st in e.events('STORE') if unwrap(st.lhs).get('k') == 'idx' and estr(unwrap(st.lhs)['b']) == sp and cval(unwrap(st.rhs)) == 0 and False]
+    # the argument cursor: the variable that indexes the stored buffer
+    cur = None
+    for ev in e.events():
+        for root in (ev.e, ev.lhs, ev.rhs):
+            if root is None:
+                continue
+            for n in walk(root):
+                if n.get('k') == 'idx' and estr(n['b']) == sp and unwrap(n['i']).get('k') == 'var':
+                    cur = unwrap(n['i'])['n']
+    if cur is None:
+        raise AnalysisBroken('qb_vsnprintf_serialize: argument cursor not found')
+    if not cuts:
+        ctx.ok('R6', 'encoder:shortening-moves-cursor', e, 'the encoder never shortens the stored format')
+        return
+    bad = []
+    for st in cuts:
+        ok, _p = e.must_pass(('after', st), lambda ev: ev.kind == 'STORE' and estr(ev.lhs) == cur and ev.d['op'] in ('--', '-='))
+        # must_pass to the function exit is too strong if the function returns first; require it before the first use of the cursor as an index
+        hits, _e2, _n2 = e.search(('after', st), goal=lambda ev: ev.kind in ('STORE', 'CALL', 'LOAD') and any(
+            n.get('k') == 'idx' and estr(n['b']) == sp and estr(n['i']) == cur for root in (ev.e, ev.lhs, ev.rhs) if root is not None for n in walk(root)),
+            stop=lambda ev: ev.kind == 'STORE' and estr(ev.lhs) == cur and ev.d['op'] in ('--', '-='))
+        if hits:
+            bad.append(st)
+    ctx.check('R6', 'encoder:shortening-moves-cursor', not bad, bad[0] if bad else cuts[0],
+              'where the stored format is shortened the argument cursor moves back before it is used',
+              'the stored format is shortened (NUL stored through %s) without the argument cursor %s being moved back: the decoder, which looks for the arguments behind the stored '
+              'format\'s terminator, reads every argument one byte early' % (estr(bad[0].lhs) if bad else '', cur))
